@@ -17,6 +17,7 @@ import (
 // ---------- C16: print-then-parse round trip ----------
 
 func runC16(r *Run) {
+	c16BlankTwinsInLiterals(r)
 	r.Rule = "random expression trees (depth <= 4, every operator, quantifiers with all four binding forms, bexpr and JSON-Pointer selectors with awkward parts) rendered with per-node layout and style choices (blank runs of space/tab/CR/LF, redundant parentheses, double-quoted \\xHH / Go-escaped / backtick / bare literals, dotted / bracketed selector parts, in vs contains spellings); predicate on the implementation: grammar.Parse of the text returns exactly the tree; literal fidelity: for every string s of the pool and of a random stream and every style that can express it, `X == <literal>` is true of X = s and `X != <literal>` false; every rendering is also parsed by the model; distinct = (tree shape, layout hash)"
 	n := 4000
 	if r.Tier == "thorough" {
@@ -363,6 +364,22 @@ func runC17(r *Run) {
 		{"NS1s", NS1s{{A: 1, B: "a"}, {A: 2, B: "b"}, {A: 1}}}, {"NS1s-empty", NS1s{}}, {"NS1s-nil", NS1s(nil)}, {"NPtrs", NPtrs{{A: 1}, {A: 2}}}, {"NDocs", NDocs{{"A": 1, "B": "a"}, {"A": 2, "B": "b"}}},
 		{"NIfs", NIfs{map[string]interface{}{"A": 1, "B": "a"}, S1{A: 2}}}, {"NArr", NArr{{A: 1}, {A: 2}}}, {"NMapS1", NMapS1{"x": {A: 1}, "y": {A: 2}}}, {"NMapS1-empty", NMapS1{}}, {"NMapS1-nil", NMapS1(nil)},
 		{"NMapIf", NMapIf{"x": S1{A: 1}, "y": map[string]interface{}{"A": 2, "B": "a"}}}, {"[0]S1", [0]S1{}}, {"[]S1-empty", []S1{}}, {"[]S1-nil", []S1(nil)},
+		{"[]S1-1003", func() interface{} {
+			l := make([]S1, 1003)
+			for i := range l {
+				l[i] = S1{A: 2 + i%5, B: "b"}
+			}
+			l[1000], l[1001], l[1002], l[3] = S1{A: 1, B: "a"}, S1{A: 1}, S1{A: 1, B: "a"}, S1{A: 1}
+			return l
+		}()},
+		{"[257]S1", func() interface{} {
+			var l [257]S1
+			for i := range l {
+				l[i] = S1{A: 2}
+			}
+			l[256] = S1{A: 1, B: "a"}
+			return l
+		}()},
 		{"[]S5", []S5{{V: 1, Sec: "s"}, {V: 2}}}, {"nil-*[]int", (*[]int)(nil)}, {"nil-*S1", (*S1)(nil)}, {"nil-*map", (*map[string]int)(nil)}, {"**[]int", func() **[]int { l := &[]int{1}; return &l }()}, {"[2]S1", [2]S1{{A: 1}, {A: 2}}}, {"[2]string", [2]string{"a", "b"}}, {"[]json-like", []interface{}{map[string]interface{}{"A": 1, "B": "a"}, map[string]interface{}{"A": "x"}, map[string]interface{}{}}},
 	}
 	exprs := []string{"", `"" == 1`, "A == 1", "A != 1", "B == a", "A == 1 or B == b", "not A == 1", "A is empty", "M.k == 1", "M is not empty", "zz == 1", "A == x", "V == 1", `"/A" == 1`, "any M as k { k == k }", "A matches `1`",
@@ -788,6 +805,7 @@ func runC18(r *Run) {
 	c18AfterCreation(r)
 	c18TagNames(r)
 	c18UnknownSubstitution(r)
+	c18BigCollectionBudget(r)
 	c18TextBudgetRunTogether(r)
 	// the hook's replacement value is what the operators see
 	for _, t := range []struct {
@@ -977,6 +995,7 @@ func runC12(r *Run) {
 		}},
 		// option lists of 3 and 5-7 entries (slices that grow by doubling keep a spare slot at these lengths), local variables among them
 		{"tag-empty", func() []bexpr.Option { return []bexpr.Option{bexpr.WithTagName("")} }},
+		{"budget-large", func() []bexpr.Option { return []bexpr.Option{bexpr.WithMaxExpressions(100000)} }},
 		{"locals-3", func() []bexpr.Option {
 			return []bexpr.Option{bexpr.WithLocalVariable("lv1", nil, 1), bexpr.WithLocalVariable("lv2", []string{"A"}, nil), bexpr.WithLocalVariable("lv3", nil, "x")}
 		}},
@@ -1018,6 +1037,7 @@ func runC12(r *Run) {
 			sharedOpts := os_.o() // ONE list of option values, handed to every concurrent creation below
 			seqEv, err := bexpr.CreateEvaluator(e, os_.o()...)
 			if err != nil {
+				r.Violate("creation-failed", e+"|"+os_.name, map[string]interface{}{"expression": e, "options": os_.name}, "CreateEvaluator failed for an expression of the language: "+err.Error())
 				continue
 			}
 			want := make([]string, len(data))
